@@ -23,8 +23,10 @@ C07_KH = ["keepstore/c07_handler.go", "keepstore/c01_stub.go", "keepstore/util.g
 C07_STUBS = ["(*git.arvados.org/arvados.git/services/keepstore.bufferPool).Get=gosymBufGet", "(*git.arvados.org/arvados.git/services/keepstore.bufferPool).Put=gosymBufPut"]
 SPECS["C10"] = dict(
     level="model_checking",
-    outside="manifests larger than the stated block/token counts; python keep.py/arvfile.py callers",
-    assumptions=["block sizes 0..maxsize, up to `blocks` blocks; file token inside the stream (parser precondition)"],
+    technique="bounded symbolic execution of go/ssa with SMT (z3) deciding path feasibility and assertions; for the Python range mapper and escape(): CrossHair (symbolic execution of the real Python module, z3), counted only when it reports the assertion confirmed over all paths or a counterexample that reproduces in CPython",
+    outside="manifests larger than the stated block/token counts (kernel: 4/6 blocks of 0..20/0..40 bytes; text level: 2/3 blocks of 0..3/0..4 bytes, 2/3 file tokens); names longer than 2/4 bytes; mutations longer than 2/4 bytes or of more than one token; Python lists longer than 4 ranges, sizes above 6/12 (replace_range: 3 ranges of 0..2/0..3); python keep.py/arvfile.py callers and _normalize_stream.normalize_stream itself; utf-8 validity; whether every grammar violation is detected (only: no panic, and a rejected manifest is not partially applied)",
+    assumptions=["block sizes 0..maxsize, up to `blocks` blocks; in the acceptance runs file tokens lie inside the stream, in the reject runs position and length are arbitrary 64-bit values",
+                 "MD5 as an uninterpreted function (portable data hash run)", "CrossHair explores paths of the harness functions with symbolic ints/strings under the leading asserts (the stated bounds)"],
     runs=[
         dict(name="firstblock", pkg="sdk/go/manifest", harness=C10_H, entry="GosymH_C10_firstblock",
              params=dict(quick=dict(blocks=4, maxsize=20), thorough=dict(blocks=6, maxsize=40)), witnesses=["found"]),
